@@ -23,7 +23,7 @@ func genOptions(t *rapid.T) *Options {
 		k := rapid.IntRange(1, 3).Draw(t, "nEP")
 		o.MEs = append(o.MEs, ME{Name: name, Eps: append([]int{}, rapid.Permutation([]int{0, 1, 2, 3}).Draw(t, "eps")[:k]...),
 			Dup: rapid.SampledFrom([]int{0, 0, 0, 0, 0, 0, 0, 1, 2, 3}).Draw(t, "dup"),
-			RMs: rapid.SampledFrom([]int{0, 0, 0, 0, 1, 5}).Draw(t, "rms"), DMs: rapid.SampledFrom([]int{0, 0, 0, 0, 1, 5, 20}).Draw(t, "dms")})
+			RMs: rapid.SampledFrom([]int{0, 0, 0, 0, 1, 5}).Draw(t, "rms"), DMs: rapid.SampledFrom([]int{0, 0, 0, 1, 5, 20, 20}).Draw(t, "dms")})
 	}
 	o.Default = rapid.IntRange(0, n-1).Draw(t, "def")
 	return o
@@ -45,6 +45,20 @@ func genCase(t *rapid.T, withInvalid bool) *Case {
 	}
 	if withInvalid && rapid.IntRange(0, 3).Draw(t, "badinit") == 0 {
 		c.BadInit = rapid.SampledFrom([]string{"nodefault", "empty-new", "nil-options", "dialfail", "dialfail-first"}).Draw(t, "badinitkind")
+	}
+	if rapid.IntRange(0, 5).Draw(t, "delayedTargetRemoved") == 0 {
+		// steer: a delayed switch to a better endpoint is pending when an update removes that endpoint
+		perm := rapid.Permutation([]int{0, 1, 2, 3}).Draw(t, "dperm")
+		a, b := perm[0], perm[1]
+		d := rapid.SampledFrom([]int{5, 20, 20}).Draw(t, "ddelay")
+		c.StartDown = []int{a}
+		c.Init = Options{MEs: []ME{{Name: 0, Eps: []int{a, b}, DMs: d}, {Name: 1, Eps: []int{b, perm[2]}}}, Default: rapid.IntRange(0, 1).Draw(t, "ddef")}
+		c.Ops = []Op{
+			{K: "update", Opts: &Options{MEs: []ME{{Name: 0, Eps: []int{a, b}, DMs: d}, {Name: 1, Eps: []int{b, perm[2]}}}, Default: 0}, Flip: a + 1, Nth: rapid.IntRange(0, 3).Draw(t, "dwait")},
+			{K: "update", Opts: &Options{MEs: []ME{{Name: 0, Eps: []int{b, perm[3]}, DMs: d}, {Name: 1, Eps: []int{b}}}, Default: 0}},
+			{K: "rpc", Ctx: 1}, {K: "rpc", Ctx: 0}, {K: "up", E: a}, {K: "rpc", Ctx: 2},
+		}
+		return c
 	}
 	kinds := []string{"update", "update", "down", "down", "up", "up", "rpc"}
 	if withInvalid {
